@@ -7,7 +7,7 @@ for p in selftest/mutants/*.patch; do
   n=$(basename $p .patch); read prop expect < selftest/mutants/$n.prop; expect=${expect:-FAIL}
   if ! git -C /repo apply --check /verif/$p 2>/dev/null; then echo "$n: patch does not apply (stale)"; continue; fi
   git -C /repo apply /verif/$p
-  out=$(./bin/govc check --property $prop 2>&1); rc=$?
+  out=$(GOVC_NOEVIDENCE=1 ./bin/govc check --property $prop 2>&1); rc=$?
   git -C /repo checkout -q -- .
   v=$(echo "$out" | grep '^VIOLATION' | head -2 | sed 's/replay=[^ ]* //' | cut -c1-160 | tr '\n' ';')
   if [ "$expect" = "PASS" ]; then
